@@ -204,9 +204,17 @@ func (t *usTarget) Close()                                                 {}
 var theStore *tikv.KVStore
 var prevBase [][]byte
 
+var storeUses int
+
 func getStore() *tikv.KVStore {
-	if theStore != nil {
+	// a fresh mock store every 60 transactions: the MVCC history of one store makes later scans slower
+	storeUses++
+	if theStore != nil && storeUses%60 != 0 {
 		return theStore
+	}
+	if theStore != nil {
+		_ = theStore.Close()
+		prevBase = nil
 	}
 	client, cluster, pdClient, err := testutils.NewMockTiKV("", nil)
 	must(err)
@@ -1168,17 +1176,20 @@ func main() {
 		seed = 1
 	}
 	thorough := os.Getenv("VERIF_TIER") == "thorough"
-	nUS, nTxn, nops := 2400, 300, 40
+	nUS, nTxn, nops := 4000, 400, 40
 	if thorough {
-		nUS, nTxn, nops = 40000, 4000, 60
+		nUS, nTxn, nops = 150000, 12000, 60
 	}
 	if v := os.Getenv("VERIF_C07_PROGRAMS"); v != "" {
 		n, _ := strconv.Atoi(v)
 		nUS, nTxn = n, n/8
 	}
+	if v := os.Getenv("VERIF_C07_TXN"); v != "" {
+		nTxn, _ = strconv.Atoi(v)
+	}
 	r := rand.New(rand.NewSource(seed*7919 + 13))
 	id := 0
-	nfail := 0
+	nfail, nfired, nplain := 0, 0, 0
 	runOne := func(p *Program) {
 		id++
 		f, fired := execProgram(id, p, emit)
@@ -1188,8 +1199,20 @@ func main() {
 		}
 		if f != nil {
 			nfail++
-			if nfail <= 40 {
-				report(out, id, p, f, fired)
+			// failures of programs without the F03 pattern are violations whatever their number: 40 are
+			// minimised and reported; programs in which F03 fired are all minimised and classified
+			if fired {
+				nfired++
+				if nfired <= 5000 {
+					report(out, id, p, f, fired)
+				} else {
+					gstats["failing-programs-not-classified"]++
+				}
+			} else {
+				nplain++
+				if nplain <= 40 {
+					report(out, id, p, f, fired)
+				}
 			}
 		}
 	}
